@@ -26,6 +26,10 @@ def workloads(rng, tier):
     for level in (-1, 0):
         ws.append(dict(kind='bam', recs=[-4, 3, -5], level=level, wc=1))                  # flushes at record boundaries
         ws.append(dict(kind='bam', recs=[6, 2], level=level, wc=1))
+    # the same BAM data re-blocked: block boundaries inside the header, inside a record,
+    # right after a record's length prefix (-4) and inside the prefix (-2)
+    ws.append(dict(kind='bam', recs=[5, 3, 4], level=-1, wc=1, split=[10, 60, -4]))
+    ws.append(dict(kind='bam', recs=[5, 3, 4], level=0, wc=1, split=[-2, -20]))
     if tier != 'quick':
         for _ in range(6):
             ws.append(dict(kind='bgzf', blocks=[pat(rng.randrange(50), rng.randrange(0, 300)) for _ in range(rng.randrange(1, 6))],
@@ -75,9 +79,16 @@ def mutations(rng, tier, w, lay, n, exhaustive_framing):
     return muts
 
 
+MAGIC = bytes.fromhex('1f8b08040000000000ff0600424302001b0003000000000000000000')   # SAMv1 section 4.1.2
+
+
 def oracle(w, lay, stream, m, o):
     """(sig, what) if the observation violates the property."""
     kind = w['kind']
+    mutated = stream[:m[1]] if m[0] == 0 else stream[:m[1]] + [m[2]] + stream[m[1] + 1:]
+    want_eof = -1 if len(mutated) < 28 else int(bytes(mutated[-28:]) == MAGIC)
+    if o['eof'] != want_eof and o['e'] != 2:
+        return (kind + ':haseof:wrong', 'HasEOF reports %d on a stream whose last 28 bytes %s the EOF marker' % (o['eof'], 'are' if want_eof == 1 else 'are not'))
     if o['e'] == 2:
         return ('%s:%s:panic' % (kind, 'trunc' if m[0] == 0 else 'subst'), 'reader panicked: ' + o.get('m', ''))
     bounds = lay['bounds']
@@ -96,7 +107,9 @@ def oracle(w, lay, stream, m, o):
                     return (kind + ':trunc:clean-end-short', 'clean end after %d bytes, the complete members hold %d' % (o['n'], lay['ubounds'][j]))
             else:
                 if n > 0 and lay['ubounds'][j] not in lay['recbounds']:
-                    return (kind + ':trunc:clean-end-inside-record', 'cut at a block boundary inside a record is read as a clean end')
+                    if o['n'] == -1:
+                        return (kind + ':trunc:newreader-eof-inside-header', 'bam.NewReader returns io.EOF for a stream cut at a block boundary inside the BAM header')
+                    return (kind + ':trunc:clean-end-inside-record', 'cut at a block boundary inside a record is read as a clean end after %d records' % o['n'])
             if o['eof'] == 1:
                 return (kind + ':trunc:haseof-true', 'HasEOF reports true for the first %d of %d bytes' % (n, len(stream)))
         return None
